@@ -170,7 +170,7 @@ def run_tlc(module, cfg, env=None, workers=1, timeout=1800, extra=None, coverage
         for line in p.stdout:
             if line.startswith(("Parsing file", "Semantic processing", "Linting of")):
                 continue
-            if keep_prints and line.startswith('"CASE'):
+            if keep_prints and line.startswith('<<"CASE"'):
                 r.prints.append(line)
                 continue
             buf.append(line)
